@@ -253,7 +253,7 @@ PURE_PREDS = ('big', 'zst', 'needs_drop')
 
 
 class State:
-    __slots__ = ('env', 'fenv', 'events', 'counter', 'pure', 'visits', 'blocks')
+    __slots__ = ('env', 'fenv', 'events', 'counter', 'pure', 'visits', 'blocks', 'mem')
 
     def __init__(self):
         self.env = {}
@@ -263,6 +263,7 @@ class State:
         self.pure = {}
         self.visits = {}
         self.blocks = []
+        self.mem = {}
 
     def clone(self):
         s = State()
@@ -273,6 +274,7 @@ class State:
         s.pure = dict(self.pure)
         s.visits = dict(self.visits)
         s.blocks = list(self.blocks)
+        s.mem = dict(self.mem)
         return s
 
 
@@ -343,6 +345,8 @@ class Evaluator:
                     except ValueError:
                         pass
                 return ('field', bv, pl[2])
+            if pl in st.mem:
+                return st.mem[pl]
             return ('load', pl, t)
         if k == 'pdown':
             base = pl[1]
@@ -450,6 +454,19 @@ class Evaluator:
             st.fenv[key] = val
             return
         st.events.append(Event('wr', idx=len(st.events), place=pl, val=val, at=at, bb=bb))
+        bp = mem_base_path(pl)
+        if bp is not None:
+            for q in [q for q in st.mem if mem_overlap(mem_base_path(q), bp)]:
+                del st.mem[q]
+            st.mem[pl] = val
+
+    def invalidate_mem(self, st, args):
+        if not st.mem:
+            return
+        for q in list(st.mem):
+            bq = mem_base_path(q)
+            if bq is None or any(mem_mentions(a, bq) for a in args):
+                del st.mem[q]
 
     # ----- stepping -----
     def step(self, b, st, work):
@@ -528,6 +545,7 @@ class Evaluator:
                 ev = Event('call', idx=len(st.events), name=name, args=args, val=res, at=t.get('at'),
                            bb=b, fn=fn, extra={'exp': t.get('exp'), 'cid': cid})
                 st.events.append(ev)
+                self.invalidate_mem(st, args)
                 if t.get('target') is None:
                     self.emit(st, 'panic')
                     return
@@ -542,6 +560,10 @@ class Evaluator:
                 for val, tb in targets:
                     cands.append((val, tb))
                 cands.append((None, other))
+                if d[0] == 'discr' and d[1][0] == 'agg' and d[2]:
+                    for vn, vv in d[2]:
+                        if vn == d[1][2]:
+                            d = ('const', 'discr', vv)
                 if d[0] == 'const' and d[2].lstrip('-').isdigit():
                     chosen = None
                     for val, tb in targets:
@@ -592,6 +614,44 @@ class Evaluator:
         self.out.append(Path(self.body, st.blocks, st.events, end))
         if len(self.out) > MAX_PATHS:
             raise TooManyPaths()
+
+
+def mem_base_path(pl):
+    """place pfield*(deref(X)) -> (X, (f1, f2, ..)) ; None for other shapes"""
+    parts = []
+    while pl[0] in ('pfield', 'pdown'):
+        parts.append(pl[2])
+        pl = pl[1]
+    if pl[0] != 'deref':
+        return None
+    return (pl[1], tuple(reversed(parts)))
+
+
+def mem_overlap(a, b):
+    if a is None or b is None:
+        return True
+    if a[0] != b[0]:
+        return False
+    n = min(len(a[1]), len(b[1]))
+    return a[1][:n] == b[1][:n]
+
+
+def mem_mentions(a, bq, depth=0):
+    """may a call that receives argument `a` write the memory cell bq=(X, path)?"""
+    if not isinstance(a, tuple) or depth > 6:
+        return False
+    if a == bq[0]:
+        return True
+    if a[0] in ('ref', 'rawptr'):
+        ba = mem_base_path(a[1])
+        if ba is not None:
+            return mem_overlap(ba, bq)
+        return False
+    if a[0] == 'agg':
+        return any(mem_mentions(f, bq, depth + 1) for f in a[3])
+    if a[0] == 'cast':
+        return mem_mentions(a[2], bq, depth + 1)
+    return False
 
 
 def is_guard(v):
@@ -674,6 +734,11 @@ def classify_bool_expr(d):
         if op in swap and a[0] == 'const' and b[0] != 'const':
             a, b, op = b, a, swap[op]
         fa = ci_field_load(a)
+        if fa is None and a[0] == 'bin' and a[1] in ('Add', 'Sub') and a[3][0] == 'const':
+            # the counter re-read after `count += 1` / `count -= 1` in the same critical section
+            fa0 = ci_field_load(a[2])
+            if fa0 in ('recv_count', 'send_count'):
+                fa = fa0
         if fa in ('recv_count', 'send_count') and b[0] == 'const':
             short = 'rc' if fa == 'recv_count' else 'sc'
             if is_const(b, 0):
